@@ -284,6 +284,14 @@ Definition open_ctx (v : bool) (sh_acts_now : list action) (thr : list throttle)
      match current_throttle v thr rs with Some bw => [SetBw bw] | None => [] end)
   else (mkSt false v lt 0 0 None sh_acts_now i, []).
 
+(* Successive responses on one connection: proxy.go 533 first drops the context
+   of the previous response (ptsconn.Context = &trafficshape.Context{}), then sets
+   it for this one.  Of the previous state only what belongs to the connection
+   survives: the latency-once flag and the position in the grant stream. *)
+Definition respond (prev : st) (v : bool) (acts_now : list action) (thr : list throttle)
+           (matches : bool) (rs hl : Z) : st * list ev :=
+  open_ctx v acts_now thr matches rs hl (lat prev) (gi prev).
+
 (* ------------------------------------------------------------------ *)
 (* Trace projections used by the statements and by the oracle          *)
 (* ------------------------------------------------------------------ *)
